@@ -108,8 +108,27 @@ type peekCkpt struct {
 	owner int
 }
 
+// peekTypePool: type numbers around the widths of bit sets and small tables (the 63rd symbol of a
+// definition has type -64).
+var peekTypePool = []lexer.TokenType{-64, -63, -65, -32, -33, -31, -128, -127, -129, -256, -255, 63, 64, 65, 127, 128, 255, 256, 1 << 16, -(1 << 16)}
+
 func runPeek(rc *RunCtx) *Violation {
 	n := simrt.Choose(bound(25, 41))
+	// the alphabet: usually {-3,-2,0,7}; one run in four swaps one or two entries for pool values
+	peekTypes = []lexer.TokenType{-3, -2, 0, 7}
+	if simrt.Choose(4) == 1 {
+		for k := 1 + simrt.Choose(2); k > 0; k-- {
+			v := peekTypePool[simrt.Choose(len(peekTypePool))]
+			dup := false
+			for _, t := range peekTypes {
+				dup = dup || t == v
+			}
+			if !dup {
+				peekTypes[simrt.Choose(4)] = v
+			}
+		}
+		rc.probe("token-type alphabet with numbers around 32 / 64 / 128 / 256 / 65536")
+	}
 	// elision set over the 4-type alphabet plus, sometimes, EOF's own type
 	mask := simrt.Choose(32)
 	if simrt.Choose(4) == 1 {
